@@ -5248,6 +5248,7 @@ func (b *Bitmap) UnmarshalBinary(data []byte) error {
 	}
 	statsHit("Bitmap/UnmarshalBinary")
 	b.opN = 0 // reset opN since we're reading new data.
+	b.ops = 0 // and the number of ops that go with it
 	if len(data) < 2 {
 		return errors.New("data too small to hold a roaring magic number")
 	}
